@@ -95,9 +95,10 @@ def run_offsets(b, form):
 def gen(i, tier):
     seed = common.run_seed(i)
     rng = random.Random(seed)
-    prof = dict(E.GM.PROFILES["timing"])
+    fan = i % 3 == 2          # every third program has Wait / time-outs inside Parallel branches and Map iterators
+    prof = dict(E.GM.PROFILES["timing_fanout" if fan else "timing"])
     sizes = dict(E.GM.SIZES[tier])
-    sizes["depth"] = 0
+    sizes["depth"] = (1 if tier == "quick" else 2) if fan else 0
     for _ in range(30):
         prog = E.GM.generate(rng, prof, sizes, with_timeout=0.3)
         cfg = E.swarm_config(rng, POLICIES, ttls=(600, 3600))
@@ -142,8 +143,16 @@ def check(scn, seed, mo=None):
         if diff:
             findings.append({"property": PROP, "rule": "outcome-mismatch", "witness": None, "detail": diff})
         else:
-            for rule, detail in timing.compare_instants(mo, res, arn, t0, True):
+            # once a branch has failed its siblings are cancelled: what the model lets them do afterwards is not
+            # comparable event by event (outcome and terminal instant still are)
+            branch_failed = mo.flags.fanout_failures > 0
+            for rule, detail in timing.compare_instants(mo, res, arn, t0, True, requests=not branch_failed):
                 findings.append({"property": PROP, "rule": rule, "witness": None, "detail": detail})
+            if branch_failed:
+                probes["fanout-with-failed-branch(outcome+terminal instant only)"] = 1
+                e_waits = m_waits = []
+            e_waits = sorted(e_waits, key=lambda w: (w[0], w[1]))
+            m_waits = sorted(m_waits, key=lambda w: (w[0], w[1]))
             if [w[0] for w in e_waits] != [w[0] for w in m_waits]:
                 findings.append({"property": PROP, "rule": "wait-sequence", "witness": None,
                                  "detail": "engine Wait exits %r, model %r" % (e_waits, m_waits)})
@@ -158,10 +167,10 @@ def check(scn, seed, mo=None):
         # never early: the k-th exit of each Wait state is not before the model's (the model is the zero-latency,
         # unstalled execution, so every legal schedule can only be later) - as long as the same path is taken
         by_name = {}
-        for n1, tm in m_waits:
+        for n1, tm in sorted(m_waits, key=lambda w: w[1]):
             by_name.setdefault(n1, []).append(tm)
         seen = {}
-        for n1, te in e_waits:
+        for n1, te in sorted(e_waits, key=lambda w: w[1]):
             k = seen.get(n1, 0)
             seen[n1] = k + 1
             lst = by_name.get(n1, [])
@@ -173,9 +182,12 @@ def check(scn, seed, mo=None):
         if term is None:
             findings.append({"property": PROP, "rule": "never-terminal", "witness": None,
                              "detail": "no terminal notification (%s)" % res.end_reason})
+    if not findings:
+        findings.extend(deadline_findings(scn, res, arn, t0, exact, mo))
     if res.sim.errors:
         findings.append({"property": PROP, "rule": "engine-exception", "witness": None,
                          "detail": repr(res.sim.errors[0][:3])})
+    probes["fanout-programs"] = 1 if E.fanout_depth(scn["machines"]["m"]["definition"]) else 0
     E.attach_replay(findings, scn, seed, res, {"kind": "generated"})
     sample = {"kind": "generated", "waits": [(n, round(t - EPOCH, 3)) for n, t in e_waits][:8], "exact": exact,
               "model_end": mo.t_end}
@@ -183,14 +195,226 @@ def check(scn, seed, mo=None):
                                 common.sha([scn["machines"], scn["script"], scn["executions"], scn.get("faults")]))
 
 
+
+# ---- (C) deadlines that coincide, events delivered after the deadlines, Map batches ---------------------------
+F = "arn:aws:rpcmessage:local::function:"
+HOP = {"pub": ("fixed", 0.1), "reply": ("fixed", 0.1)}     # every message takes 0.1 s, so a stall can fall between hops
+
+
+def gen_deadline(i):
+    """
+    tie      the start state's Task TimeoutSeconds equals the machine's TimeoutSeconds (both deadlines coincide);
+             Retry and/or Catch match States.Timeout; the worker never answers in time
+    late     a stalled engine receives the Task / Wait event only after the execution deadline (and, for the Task,
+             after the Task's own deadline too)
+    Expected in both: FAILED with States.Timeout, no Retry or Catch intercepts, the end comes at the deadline (tie) or
+    when the late event is finally handled (late) - never later.
+    """
+    seed = common.run_seed(8000000 + i)
+    rng = random.Random(seed)
+    kind = rng.choice(["tie", "tie", "late-task", "late-task", "late-wait"])
+    T = rng.choice([3, 5, 8])
+    handlers = {}
+    retry = [{"ErrorEquals": [rng.choice(["States.Timeout", "States.ALL"])], "IntervalSeconds": rng.choice([1, 2]),
+              "MaxAttempts": rng.choice([1, 2, 3]), "BackoffRate": 1.0}] if rng.random() < 0.6 else None
+    catch = [{"ErrorEquals": [rng.choice(["States.ALL", "States.Timeout"])], "ResultPath": "$.err", "Next": "H"}] \
+        if (retry is None or rng.random() < 0.6) else None
+    hstate = rng.choice([{"Type": "Pass", "End": True}, {"Type": "Wait", "Seconds": 2, "End": True},
+                         {"Type": "Task", "Resource": F + "handler", "End": True}])
+    task = {"Type": "Task", "Resource": F + "slow", "End": True}
+    if retry:
+        task["Retry"] = retry
+    if catch:
+        task["Catch"] = catch
+    states = {"T": task}
+    if catch:
+        states["H"] = hstate
+    cfg = {"policy": "canonical", "latency": "zero", "execution_ttl": 600, "tz": rng.choice(["UTC0", "SIM-05:30"])}
+    faults = None
+    start = "T"
+    script = {"slow": [{"noreply": True}] if rng.random() < 0.5 else [{"ok": {"op": "tag"}, "delay": T + rng.choice([0.5, 2.0])}],
+              "handler": [{"ok": {"op": "tag"}, "delay": 1.0}]}
+    expect_end = float(T)
+    if kind == "tie":
+        task["TimeoutSeconds"] = T
+        if rng.random() < 0.3:
+            states["P"] = {"Type": "Pass", "Next": "T"}       # the Task is entered at the same instant all the same
+            start = "P"
+    else:
+        cfg["latency"] = HOP
+        cfg["policy"] = "latency"
+        task["TimeoutSeconds"] = rng.choice([1, 2, T - 1])
+        stall_at = 0.15
+        dur = T + rng.choice([1.0, 2.5])
+        faults = [{"kind": "stall", "node": 0, "at": stall_at, "duration": dur}]
+        states["P"] = {"Type": "Pass", "Next": "T"}
+        start = "P"
+        if kind == "late-wait":
+            # P -> T is replaced by P -> W (Wait) whose event arrives after the deadline
+            states = {"P": {"Type": "Pass", "Next": "W"}, "W": {"Type": "Wait", "Seconds": rng.choice([1, 2]), "Next": "Z"},
+                      "Z": {"Type": "Pass", "End": True}}
+        expect_end = stall_at + dur
+    definition = {"StartAt": start, "TimeoutSeconds": T, "States": states}
+    scn = {"machines": {"m": {"definition": definition, "type": rng.choice(["STANDARD", "EXPRESS"])}},
+           "executions": [{"machine": "m", "input": {"x": 1}, "name": "e1", "at": 0.0}], "script": script,
+           "functions": ["handler", "slow"], "config": cfg}
+    if faults:
+        scn["faults"] = faults
+    return seed, scn, kind, expect_end
+
+
+def check_deadline(scn, seed, kind, expect_end):
+    res = run_scenario(scn, seed, horizon=700)
+    arn = res.exec_arns.get("e1")
+    t0 = timing.start_time(res, "e1")
+    findings = []
+    evs = res.world.terminal_events().get(arn, []) if arn else []
+    T = scn["machines"]["m"]["definition"]["TimeoutSeconds"]
+    if not evs:
+        findings.append({"property": PROP, "rule": "never-terminal", "witness": None,
+                         "detail": "%s: no terminal notification (%s)" % (kind, res.end_reason)})
+    else:
+        d = evs[0]["body"]["detail"]
+        te = evs[0]["published_at"] - t0
+        err = d.get("error")
+        if err is None and d.get("output"):
+            try:
+                o = json.loads(d["output"])
+                err = o.get("Error") if isinstance(o, dict) else None
+            except ValueError:
+                pass
+        if d["status"] != "FAILED" or err != "States.Timeout":
+            findings.append({"property": PROP, "rule": "execution-timeout-intercepted", "witness": None,
+                             "detail": "%s, machine TimeoutSeconds %s: ended %s %r at t=%.3f; the execution time-out "
+                                       "cannot be retried or caught" % (kind, T, d["status"], err, te)})
+        elif te > expect_end + 0.2 + timing.TOL or te < min(T, expect_end) - timing.TOL:
+            findings.append({"property": PROP, "rule": "execution-timeout-instant", "witness": None,
+                             "detail": "%s, machine TimeoutSeconds %s: FAILED States.Timeout at t=%.3f, expected at "
+                                       "t=%.3f" % (kind, T, te, expect_end)})
+    if not findings:
+        findings.extend(deadline_findings(scn, res, arn, t0, kind == "tie"))
+    if res.sim.errors:
+        findings.append({"property": PROP, "rule": "engine-exception", "witness": None,
+                         "detail": repr(res.sim.errors[0][:3])})
+    E.attach_replay(findings, scn, seed, res, {"kind": "deadline", "dkind": kind, "expect_end": expect_end})
+    return common.summarize_run(res, PROP, findings, True, {"kind": "deadline:" + kind},
+                                {"deadline:" + kind: 1, "stalled-runs": 1 if scn.get("faults") else 0},
+                                common.sha([scn["machines"], scn["script"], scn.get("faults")]))
+
+
+# Map batches: Wait / Task time-out as the FIRST state of an iterator, MaxConcurrency below the item count, optionally
+# the Map's own event delivered late: every iteration's deadline counts from the instant that iteration is started
+def gen_batches(i):
+    seed = common.run_seed(8500000 + i)
+    rng = random.Random(seed)
+    n = rng.randint(2, 5)
+    mc = rng.choice([1, 1, 2, 3])
+    first = rng.choice(["wait", "wait", "task-timeout", "pass-then-wait"])
+    w = rng.choice([1, 2, 5, 10])
+    if first == "wait":
+        it = {"StartAt": "W", "States": {"W": {"Type": "Wait", "Seconds": w, "End": True}}}
+    elif first == "pass-then-wait":
+        it = {"StartAt": "P", "States": {"P": {"Type": "Pass", "Next": "W"}, "W": {"Type": "Wait", "Seconds": w, "End": True}}}
+    else:
+        it = {"StartAt": "T", "States": {"T": {"Type": "Task", "Resource": F + "silent", "TimeoutSeconds": w,
+                                                "Catch": [{"ErrorEquals": ["States.Timeout"], "Next": "C"}]},
+                                         "C": {"Type": "Pass", "Result": "timed out", "End": True}}}
+    definition = {"StartAt": "M", "States": {"M": {"Type": "Map", "ItemsPath": "$.items", "MaxConcurrency": mc,
+                                                   rng.choice(["ItemProcessor", "Iterator"]): it, "End": True}}}
+    if rng.random() < 0.4:
+        definition["States"] = {"A": {"Type": "Wait", "Seconds": 1, "Next": "M"}, "M": definition["States"]["M"]}
+        definition["StartAt"] = "A"
+    cfg = E.policy_cfg(rng.choice(["canonical", "canonical", "latency-small", "shuffle"]))
+    cfg.update(execution_ttl=600, tz=rng.choice(["UTC0", "SIM+09:45"]))
+    scn = {"machines": {"m": {"definition": definition, "type": rng.choice(["STANDARD", "EXPRESS"])}},
+           "executions": [{"machine": "m", "input": {"items": list(range(n))}, "name": "e1", "at": 0.0}],
+           "script": {"silent": [{"noreply": True}]}, "functions": ["silent"], "config": cfg}
+    if rng.random() < 0.3:
+        scn["faults"] = [{"kind": "stall", "node": 0, "at": rng.choice([0.0, 0.5, 1.0]), "duration": rng.choice([1.0, 3.0])}]
+    return seed, scn
+
+
 def find_type(machine, name):
     st = machine["States"].get(name)
-    return st.get("Type") if st else None
+    if st:
+        return st.get("Type")
+    for st in machine["States"].values():
+        for sub in list(st.get("Branches") or []) + [st[k] for k in ("ItemProcessor", "Iterator") if isinstance(st.get(k), dict)]:
+            t = find_type(sub, name)
+            if t:
+                return t
+    return None
+
+
+def deadline_findings(scn, res, arn, t0, exact, mo=None):
+    """
+    The machine's TimeoutSeconds: nothing but the States.Timeout failure may happen once it has passed.
+      exact runs   the execution is over by t0 + TimeoutSeconds (it either ended before or fails with States.Timeout
+                   exactly then)
+      every run    a Task or Wait state whose event is handled after the deadline must not complete, be retried or be
+                   caught: the only history that may follow for the execution is failure, and it ends FAILED with
+                   States.Timeout
+    """
+    limit = scn["machines"]["m"]["definition"].get("TimeoutSeconds")
+    if limit is None or t0 is None or arn is None:
+        return []
+    out = []
+    deadline = t0 + limit
+    evs = res.world.terminal_events().get(arn, [])
+    if exact and evs and evs[0]["published_at"] > deadline + timing.TOL:
+        wit = None
+        for tr in (mo.transitions if mo is not None else []):
+            if tr[1] == "retry" and tr[0] <= limit < tr[0] + tr[3][1] + timing.TOL:
+                wit = "deadline-inside-retry-backoff"      # recorded finding: noticed only when the back-off ends
+        out.append({"property": PROP, "rule": "execution-outlived-its-timeout", "witness": wit,
+                    "detail": "machine TimeoutSeconds %s: the execution ended at t=%.4f (%s), after t=%.4f" % (
+                        limit, evs[0]["published_at"] - EPOCH, evs[0]["body"]["detail"]["status"], deadline - EPOCH)})
+    late = None
+    entered_late = set()
+    stalled = bool(scn.get("faults"))
+    zero = scn["config"].get("latency", "zero") == "zero"
+    for n in res.world.nodes:
+        for (step, t, a, typ, details, smt) in n.history_log:
+            if a != arn or t <= deadline + timing.TOL:
+                continue
+            name = details.get("name")
+            if typ in ("TaskStateEntered", "WaitStateEntered"):
+                entered_late.add((typ[:4], name))
+                if late is None:
+                    late = (typ, name, t)
+            elif typ in ("TaskStateExited", "WaitStateExited") and ((typ[:4], name) in entered_late or
+                                                                     (zero and not stalled)):
+                # a state entered after the deadline can only fail; without latency or stall, a Task or Wait entered
+                # before it cannot complete after it either (its timer is cut at the deadline)
+                out.append({"property": PROP, "rule": "progress-after-execution-timeout", "witness": None,
+                            "detail": "machine TimeoutSeconds %s (deadline t=%.4f): %s %s at t=%.4f" % (
+                                limit, deadline - EPOCH, typ, name, t - EPOCH)})
+                return out
+    if late is not None and evs:
+        d = evs[0]["body"]["detail"]
+        err = None
+        try:
+            err = json.loads(d.get("output") or "null")
+        except ValueError:
+            pass
+        if d["status"] != "FAILED" or d.get("error", (err or {}).get("Error") if isinstance(err, dict) else None) not in (
+                "States.Timeout", None):
+            out.append({"property": PROP, "rule": "progress-after-execution-timeout", "witness": None,
+                        "detail": "machine TimeoutSeconds %s: %s %s handled at t=%.4f, after the deadline, and the "
+                                  "execution ended %s %r" % (limit, late[0], late[1], late[2] - EPOCH, d["status"],
+                                                             d.get("error"))})
+    return out
 
 
 def run_one(item, extra):
     if isinstance(item, tuple) and item[0] == "offsets":
         return run_offsets(item[1], item[2])
+    if isinstance(item, tuple) and item[0] == "deadline":
+        seed, scn, kind, expect_end = gen_deadline(item[1])
+        return check_deadline(scn, seed, kind, expect_end)
+    if isinstance(item, tuple) and item[0] == "batches":
+        seed, scn = gen_batches(item[1])
+        return check(scn, seed)
     seed, scn, mo = gen(item, extra["tier"])
     if scn is None:
         return {"evaluations": 1, "probes": {"no-acceptable-program": 1}, "findings": [], "distinct": []}
@@ -203,6 +427,8 @@ def main(argv):
             rec = json.load(f)
         if rec.get("kind") == "offsets":
             r = run_offsets(rec["batch"], rec["form"])
+        elif rec.get("kind") == "deadline":
+            r = check_deadline(rec["scenario"], rec["seed"], rec["dkind"], rec["expect_end"])
         else:
             r = check(rec["scenario"], rec["seed"])
         same = [f for f in r["findings"] if f["rule"] == rec["rule"]]
@@ -213,6 +439,8 @@ def main(argv):
     forms = ["plain"] if tier == "quick" else ["plain", "fraction", "zulu"]
     nb = (len(OFFSETS) + BATCH - 1) // BATCH
     items = [("offsets", b, f) for f in forms for b in range(nb)] + list(range(n))
+    items += [("deadline", k) for k in range(400 if tier == "quick" else 20000)]
+    items += [("batches", k) for k in range(400 if tier == "quick" else 20000)]
     rep = common.Report(PROP)
     for r in common.run_batch("checks.c08", "run_one", items, {"tier": tier}, chunk=10):
         rep.absorb(r)
@@ -223,7 +451,12 @@ def main(argv):
              "sequential programs with Wait Seconds/SecondsPath/Timestamp/TimestampPath, Task TimeoutSeconds, machine "
              "TimeoutSeconds, Retry/Catch and worker replies before/after the deadlines: zero-latency runs compare "
              "every Wait exit, task request and the terminal instant with the reference model within 2 ms, latency "
-             "and stalled-engine runs must never be earlier; non-trivial = at least one Wait or time-out in the model; "
+             "and stalled-engine runs must never be earlier; every third program has its Waits and time-outs inside "
+             "Parallel branches and Map iterators; with a machine TimeoutSeconds nothing but the States.Timeout failure "
+             "may follow the deadline; (C) Task and machine deadlines that coincide and Task/Wait events that a stalled "
+             "engine receives only after the deadlines, with Retry/Catch on States.Timeout/States.ALL: the end is "
+             "FAILED/States.Timeout at the deadline (or when the late event is handled), never intercepted; Map "
+             "iterators whose first state is a Wait or a timed-out Task under MaxConcurrency batches; non-trivial = at least one Wait or time-out in the model; "
              "distinct = distinct offsets + distinct (program, script, faults) hashes" % (len(OFFSETS), "/".join(forms)),
         assumptions=["exact-instant oracle only with zero latency and no stall; exact ties between a reply and a "
                      "deadline are excluded (either outcome is legal)", "synchronised, non-jumping clock"],
